@@ -45,6 +45,12 @@ type Byz struct {
 	ALPSSettings  []byte
 	ALPSWithoutALPN bool
 
+	// TicketCount > 1: that many TLS 1.3 NewSessionTicket messages (distinct nonces) after the
+	// handshake; TicketsInOneRecord: all of them in a single record (RFC 8446 5.1 allows several
+	// handshake messages of one type run to share a record), as BoringSSL-style servers do.
+	TicketCount        int
+	TicketsInOneRecord bool
+
 	// Mutate is applied to every handshake message the server sends, before it is hashed
 	// into the transcript and written (mutate-msg fault). Return the bytes unchanged to keep it.
 	Mutate func(msgType uint8, marshaled []byte) []byte
